@@ -90,8 +90,6 @@ Proof. intros st mx e HG. apply (GoodD_ext cx st); try reflexivity. exact HG. Qe
 Lemma GoodD_of_set_lim : forall st mx e, GoodD (set_lim st mx e) -> GoodD st.
 Proof. intros st mx e HG. apply (GoodD_ext cx (set_lim st mx e)); try reflexivity. exact HG. Qed.
 
-Notation Tidy := (Tidy).
-
 (* assert_definitive only touches the panic flag *)
 Lemma assert_stack : forall st, p_stack (assert_definitive st) = p_stack st.
 Proof. intros st. destruct (assert_cases st) as [-> | ->]; reflexivity. Qed.
